@@ -321,6 +321,112 @@ def gen_cases(plane, tier):
                     yield list(ls) + [f], CONFIGS[0]
 
 
+# ---------------------------------------------------------------------------------------------
+# interleavings of the per-folder worker threads (archive opened by name, one folder per member): the check of an
+# output location and the creation of the file are separate steps, and another folder's thread may create links between them
+def interleave_lists(tier):
+    out = [
+        [("a/sibling.txt", "file", None), ("c", "symlink", "."), ("a", "symlink", "c/..")],
+        [("a/evil", "file", None), ("a", "symlink", "..")],
+        [("c", "symlink", "."), ("a", "symlink", "c/.."), ("a/sibling.txt", "file", None)],
+        [("a/sibling.txt", "empty", None), ("a/x", "file", None), ("c", "symlink", "."), ("a", "symlink", "c/..")],
+    ]
+    if tier != "quick":
+        out += [
+            [("a/b/sibling.txt", "file", None), ("c", "symlink", "."), ("a/b", "symlink", "../c/.."), ("a", "dir", None)],
+            [("a/sub", "dir", None), ("a/sub/f", "file", None), ("c", "symlink", "."), ("a", "symlink", "c/../../outside")],
+            [("a/victim.txt", "file", None), ("a", "symlink", "{OUT}")],
+            [("b", "symlink", "."), ("a/sibling.txt", "file", None), ("a", "symlink", "b/..")],
+        ]
+    return out
+
+
+def run_interleaved(entries, choices, wd):
+    """One controlled execution of extractall(path) on a by-name archive with one folder per data member.
+    -> (chooser, [(symptom, msg)])"""
+    import pathlib
+
+    import py7zr
+
+    from mc.core import explore
+    from mc.core.sched import Scheduler
+    from mc.lib7z import seams
+
+    top, root, jail, dest, outside = reset_world(wd, "empty")
+    install_guard(top)
+    members = entry_members(entries, dest, outside)
+    data_idx = [i for i, m in enumerate(members) if m["kind"] in ("file", "symlink")]
+    blob = ref7z.write(members, {"folders": [[i] for i in data_idx], "chains": [[("COPY", {})] for _ in data_idx]})
+    apath = os.path.join(root, "hostile.7z")
+    with open(apath, "wb") as f:
+        f.write(blob)
+    before = snapshot(top, dest)
+    ch = explore.Chooser(choices)
+    sched = Scheduler(ch, line_trace=True)
+    real_open = open
+
+    def sched_open(file, mode="r", *a, **k):
+        sched.point("archive.open", None)
+        return real_open(file, mode, *a, **k)
+
+    def body():
+        with py7zr.SevenZipFile(apath) as z:
+            z.extractall(path=dest)
+
+    _GUARD["hits"].clear()
+    _GUARD["on"] = True
+    try:
+        with seams(py7zr__Thread=sched.Thread, py7zr__queue=sched.queue_module, py7zr__open=sched_open, py7zr__time=sched.time_module):
+            res, exc = sched.run_main(body)
+    finally:
+        _GUARD["on"] = False
+    out = []
+    if sched.deadlock:
+        out.append(("deadlock", "the workers deadlocked"))
+    if _GUARD["hits"]:
+        out.append(("escape-beyond-scratch", f"attempted {_GUARD['hits'][:2]}"))
+    after = snapshot(top, dest)
+    changed = []
+    for p in sorted(set(before) | set(after)):
+        if before.get(p) != after.get(p):
+            b, a = before.get(p), after.get(p)
+            what = "created" if b is None else ("removed" if a is None else ("content" if b[:2] != a[:2] else ("mode" if b[2] != a[2] else "retimed")))
+            changed.append((os.path.relpath(p, root), what))
+    if changed:
+        outcome = "returned" if exc is None else f"raised {type(exc).__name__}"
+        out.append(("outside-changed", f"extraction {outcome}; outside the destination: {changed[:4]}"))
+    return ch, out, sched
+
+
+def shard_interleave(task):
+    entries, bound = task
+    from mc.core import explore
+
+    sh = Shard()
+    wd = os.getcwd()
+    stats = {"points": 0}
+
+    try:
+        stack = [[]]
+        while stack:
+            p = stack.pop()
+            ch, r, sched = run_interleaved(entries, p, wd)
+            stats["points"] += sched.points
+            sh.case((entries, ch.choices), nontrivial=True, sample={"entries": entries, "schedule": ch.decoded()[:6]} if len(sh.samples) < 1 and ch.cost() else None)
+            sh.count(f"preemptions={ch.cost()}")
+            sh.count("transitions", len(ch.trace))
+            for sym, msg in r:
+                sh.violation({"symptom": sym, "shape": canon_shape(entries), "opened": "path-interleaved"}, f"{entries} schedule {ch.decoded()[:4]}: {msg}",
+                             {"entries": entries, "choices": ch.choices, "interleaved": True})
+            stack.extend(reversed(explore.children(ch, len(p), bound)))
+    except Exception as ex:
+        sh.count("harness_case_error")
+        sh.note("harness_errors", f"{type(ex).__name__}: {str(ex)[:120]}")
+    sh.count("scheduling_points", stats["points"])
+    shutil.rmtree(layout_paths(wd)[0], ignore_errors=True)
+    return sh.result()
+
+
 def _swap_cases(tier):
     """A file is extracted through a harmless link, then a LATER member re-points that link (same output path under another
     spelling, so that it is not treated as a duplicate name): whatever the extractor still remembers about the file's path
@@ -361,6 +467,11 @@ def shard(task):
 def replay(case):
     wd = "/dev/shm/c03r-%d" % os.getpid()
     os.makedirs(wd, exist_ok=True)
+    if case.get("interleaved"):
+        try:
+            return run_interleaved([tuple(e) for e in case["entries"]], list(case["choices"]), wd)[1]
+        finally:
+            shutil.rmtree(wd, ignore_errors=True)
     try:
         return run_case([tuple(e) for e in case["entries"]], tuple(case["config"]), wd)
     finally:
@@ -382,8 +493,11 @@ def main(tier="quick", seed=0, only=None):
     random.Random(seed).shuffle(tasks)
     with Pool() as pool:
         res = pool.map(f"{MODULE}:shard", tasks, soft=3000)
+        itasks = [(e, 1 if tier == "quick" else 2) for e in interleave_lists(tier)] if (not only or "interleave" in only) else []
+        ires = pool.map(f"{MODULE}:shard_interleave", itasks, soft=3000)
     for t, r in zip(tasks, res):
         chk.merge_pool([r], plane=t[0])
+    chk.merge_pool(ires, plane="interleave")
     return chk.finish(
         rule=(
             "archives written by ref7z; entries = (name, kind, target): names = all paths of <= 2 (thorough 3) components over {a,b,..,.,'',dest} "
@@ -391,10 +505,10 @@ def main(tier="quick", seed=0, only=None):
             "{., .., ../.., a, a/.., b/../.., abs-inside, abs-outside, ../../outside}. ALL single entries x 7 configurations (destination "
             "absolute / relative / None=cwd; destination empty / 'a' is a directory / 'a' is a file; opened by stream = sequential, by path = "
             "one folder per member, workers run in folder order and in reverse order); ALL ordered pairs and ALL ordered triples over the "
-            "tier's reduced alphabets; link chains of 3 (thorough 4) links followed by a file written through them; swaps: a file or directory extracted through a harmless link that a later member re-points (same output path under another spelling) to the parent, to a sibling directory or outside. Oracle: byte/mode/mtime/"
+            "tier's reduced alphabets; link chains of 3 (thorough 4) links followed by a file written through them; swaps: a file or directory extracted through a harmless link that a later member re-points (same output path under another spelling) to the parent, to a sibling directory or outside; interleave: archives opened by name with one folder per member (a file in one folder, the links that would redirect its directory in others) under EVERY interleaving of the per-folder worker threads with at most 1 (thorough 2) preemptions, every executed source line of py7zr in a worker thread being a scheduling point. Oracle: byte/mode/mtime/"
             "ctime snapshot of everything around the destination identical before and after, whether extraction returned or raised; "
             "tripwire on write-intent audit events leaving the scratch area. Non-trivial = the sequence contains a link, '..', or an absolute path."
         ),
-        assumptions=["runs as uid 0 (permission denials cannot mask an escape)", "schedules of the parallel branch are reduced to the two extreme orders (C13 owns interleavings)"],
+        assumptions=["runs as uid 0 (permission denials cannot mask an escape)", "outside the interleave plane the schedules of the parallel branch are reduced to the two extreme orders"],
         exhaustive=True,
     )
